@@ -60,6 +60,11 @@ for d in sorted(glob.glob(R + '/seeded/*')):
     r = last.get(name)
     if r:
         caught = '; '.join('%s: %s' % (p, (re.search(r'obligation="([^"]+)"', c['first']) or re.search(r'(finding=\S+)', c['first']) or [None, 'exit %d' % c['exit']])[1]) for p, c in r['checks'].items())
+    if m.get('kind') == 'break-uncovered':
+        caught = '**NOT DETECTED** (documented exclusion of the claim; see uncovered_note in meta.json)'
+    elif not caught and 'VIOLATION' in conf:
+        mm = re.search(r'obligation="([^"]+)"', conf) or re.search(r'(bounded-stand-in failing input)', conf)
+        caught = '%s: %s (confirm.log; not yet in a full self-test run)' % (m.get('property'), mm.group(1) if mm else 'exit 1')
     out.append('| %s | %s | %s | %s | %s |' % (name, m.get('property'), m.get('summary', '')[:260].replace('|', '/').replace('\n', ' '), okc, caught))
 out.append('')
 
